@@ -327,6 +327,18 @@ CHECKS = {
 NOT_YET = {}
 
 
+COMMON_NOTE = ("The input, configuration and history dimensions the harness generates (argument forms, leftovers, reused objects, "
+               "faults) are listed per property in DESIGN.md 9.7; the seeded changes it was tried against in DESIGN.md 10.")
+EXTRA_NOTE = {
+    "C04": "Two kinds of fault: an interruption after any step, and a shank file damaged before the verification (spec action Damage).",
+    "C06": "The batch loop and the hand-over between workers are also discharged for unbounded lengths by Apalache "
+           "(spec/apalache/DestripeLoopInd.tla).",
+    "C13": "The chunk / snippet arithmetic is also discharged for unbounded parameters by Apalache (spec/apalache/WaveSnipInd.tla).",
+    "C19": "Two classes of inputs on which the unchanged estimator is known to fail are registered in KNOWN_FINDINGS.txt and "
+           "demonstrated in every run.",
+}
+
+
 def main():
     props = [json.loads(l) for l in (VERIF / "properties.jsonl").read_text().splitlines() if l.strip()]
     checks, na = [], []
@@ -342,7 +354,7 @@ def main():
                 "replay_cmd_template": f"./check {pid} --replay {{path}}",
                 "engine": "tlc+harness",
                 "level_claimed": {"category": c["category"], "text": c["text"], "design_ref": c["design_ref"]},
-                "level_note": c["note"],
+                "level_note": c["note"] + (" " + EXTRA_NOTE.get(pid, "") if EXTRA_NOTE.get(pid) else "") + " " + COMMON_NOTE,
                 "technique": c["technique"],
             })
         else:
@@ -371,7 +383,8 @@ def main():
                      "kind_free_text": "./check X01 (spec/sys/Session.tla: ephys file globbing, sync maps, reconstructor preconditions, Reader "
                                        "life cycle), ./check X02 (spec/sys/LfpResample.tla: the LFP down-sampling loop), ./check X03 "
                                        "(spec/sys/Programs.tla: user programs = converter runs + Reader compress/decompress + "
-                                       "reconstruction over one directory); same interface and exit codes, evidence/X0n.json; not "
+                                       "reconstruction over one directory), ./check X04 (spec/sys/DestripeQC.tla: the saturation / rms / time "
+                                       "files of the destriping run under every worker schedule); same interface and exit codes, evidence/X0n.json; not "
                                        "registered as checks because the property list is fixed (DESIGN.md 9.5)"}],
         "checks": checks,
         "not_applicable": na,
